@@ -9,26 +9,33 @@
   PROVED (any state, any program — no invariant needed): `c05_keeps_edges`,
   `c05_no_exec_in_mca`, `c05_evict_frame`.
 
-  NOT YET PROVED (stage S3b: the engine invariant with evicted values — DESIGN.md §3, clauses
-  KA/KB with the semantic `deepAt`; the model and driver are in place and agree with the
-  implementation, the proof is not done):
+  PROVED (stage S3b: the engine invariant with evicted values, Proofs/Core3Evict*.lean — the
+  invariant `InvE` does not mention the LRU policy: ANY tracked value may disappear at any time;
+  clauses: observer clause `iv` (value kept or a relevant write below the stamp), KA/KB with the
+  semantic `deepAt`, M4):
+    c05_sound       : Wf P → ∀ inp cells cap ops q,
+        (fetch P (run P inp cells cap ops) q).2.val = sem P (run …).inp (run …).cells q
+      (every request returns the from-scratch value, for programs WITH `lru` kinds, histories with
+      `lruCap` / `evict`; = `c01_s3`)
     c05_transparent : Wf P → ∀ inp cells cap ops,
         outputs P (init inp cells cap) ops = outputs P (init inp cells cap) (dropLru ops)
-      where `dropLru` erases `lruCap` / `evict` and both sides equal the from-scratch values
-      (= `c01_s3` soundness of Core3 for programs WITH `lru` kinds).
+      where `dropLru` erases `lruCap` / `evict`; `c05_transparent_cap`: the declared capacity does
+      not matter either; `c05_transparent_inv`: from any two states satisfying the invariant with
+      the same inputs, cells and revision.
   `c05_bound` was false on the unchanged tree (DESIGN.md §C05); with the repair of
   `maybe_changed_after_cold` (`record_use` after the re-execution, mirrored in `mcaStep`) it is
   PROVED below for histories that never set the capacity to 0 (`c05_cover`, `c05_bound`).  Not
   covered: values cached while the capacity was 0 and kept after it became non-zero ("requested
   since enabled" needs a ghost set; intended statement: the same with `Cached` restricted to keys
   requested since the last `lruCap 0`).
-  What is proved instead: `c05_transparent_noLru_partial` — for programs without `lru` kinds the
-  LRU operations change no answer (there both sides equal `sem`).
+  Kept from the earlier stage: `c05_transparent_noLru_partial` (programs without `lru` kinds, S3a
+  invariant).
 -/
 import SalsaVerif.Model.Core3
 import SalsaVerif.Proofs.Core3Top
 import SalsaVerif.Proofs.Core3Trace
 import SalsaVerif.Proofs.Core3Lru
+import SalsaVerif.Proofs.Core3EvictSound
 
 namespace SalsaVerif.Props.C05Engine
 open SalsaVerif.Model.Core3 SalsaVerif.Proofs.Core3
@@ -135,6 +142,78 @@ theorem c05_transparent_noLru_partial {P : Prog} (hP : Wf P) (hK : NoLru P) :
       exact ih _ _ (step_inv hP hK s (.cellSet c v i w nd) hs) (step_inv hP hK t (.cellSet c v i w nd) ht) w1
         (by simp only [step]; rw [w3, w4]; simp [setCell, hc]) w2
 
+/-- **Soundness with eviction**: for every well-formed program — `lru` kinds included — after any
+    history of requests, writes, cell changes, capacity changes and evictions, every request returns
+    the from-scratch value over the current inputs and cells. -/
+theorem c05_sound {P : Prog} (hP : Wf P) (inp : Nat → Inp) (cells : Nat → Nat) (cap : Nat) (ops : List Op)
+    (q : Nat) :
+    (fetch P (run P inp cells cap ops) q).2.val =
+      sem P (run P inp cells cap ops).inp (run P inp cells cap ops).cells q :=
+  Proofs.Core3E.c01_s3 hP inp cells cap ops q
+
+/-- transparency from any two states that satisfy the engine invariant and agree on inputs, cells
+    and the revision (their memos, evicted values and LRU sets may differ arbitrarily) -/
+theorem c05_transparent_inv {P : Prog} (hP : Wf P) :
+    ∀ (ops : List Op) (s t : State), Proofs.Core3E.InvE P s → Proofs.Core3E.InvE P t → s.inp = t.inp →
+      s.cells = t.cells → s.cur = t.cur → outputs P s ops = outputs P t (dropLru ops) := by
+  intro ops
+  induction ops with
+  | nil => intro s t _ _ _ _ _; rfl
+  | cons op rest ih =>
+    intro s t hs ht hi hc hr
+    have hstep : ∀ op', (∀ q, op' ≠ .get q) → (∀ n, op' ≠ .lruCap n) → op' ≠ .evict →
+        outputs P (step P s op') rest = outputs P (step P t op') (dropLru rest) := by
+      intro op' h1 h2 h3
+      obtain ⟨e1, e2, e3⟩ := Proofs.Core3E.step_env P s t op' h1 hi hc hr ⟨h2, h3⟩
+      exact ih _ _ (Proofs.Core3E.step_inv hP s op' hs) (Proofs.Core3E.step_inv hP t op' ht) e1 e2 e3
+    cases op with
+    | get q =>
+      obtain ⟨a1, a2, a3, a4, a5⟩ := Proofs.Core3E.fetch_sound hP s q hs
+      obtain ⟨b1, b2, b3, b4, b5⟩ := Proofs.Core3E.fetch_sound hP t q ht
+      simp only [outputs, dropLru]
+      rw [a2, b2, hi, hc, ih _ _ a1 b1 (by rw [a4, b4, hi]) (by rw [a5, b5, hc]) (by rw [a3, b3, hr])]
+    | lruCap n =>
+      simp only [outputs, dropLru]
+      obtain ⟨e1, e2, e3⟩ := (Proofs.Core3E.lru_env P s).1 n
+      exact ih _ _ (Proofs.Core3E.step_inv hP s (.lruCap n) hs) ht (e1.trans hi) (e2.trans hc) (e3.trans hr)
+    | evict =>
+      simp only [outputs, dropLru]
+      obtain ⟨e1, e2, e3⟩ := (Proofs.Core3E.lru_env P s).2
+      exact ih _ _ (Proofs.Core3E.step_inv hP s .evict hs) ht (e1.trans hi) (e2.trans hc) (e3.trans hr)
+    | set i v nd =>
+      simp only [outputs, dropLru]
+      exact hstep (.set i v nd) (by intro q h; cases h) (by intro n h; cases h) (by intro h; cases h)
+    | synth d =>
+      simp only [outputs, dropLru]
+      exact hstep (.synth d) (by intro q h; cases h) (by intro n h; cases h) (by intro h; cases h)
+    | cellSynth c v d =>
+      simp only [outputs, dropLru]
+      exact hstep (.cellSynth c v d) (by intro q h; cases h) (by intro n h; cases h) (by intro h; cases h)
+    | cellSet c v i w nd =>
+      simp only [outputs, dropLru]
+      exact hstep (.cellSet c v i w nd) (by intro q h; cases h) (by intro n h; cases h) (by intro h; cases h)
+
+/-- **Transparency**: the answers of a history equal the answers of the history with the LRU
+    operations (`lruCap`, `evict`) erased — for every well-formed program, `lru` kinds included. -/
+theorem c05_transparent {P : Prog} (hP : Wf P) (inp : Nat → Inp) (cells : Nat → Nat) (cap : Nat)
+    (ops : List Op) :
+    outputs P (init inp cells cap) ops = outputs P (init inp cells cap) (dropLru ops) :=
+  c05_transparent_inv hP ops _ _ (Proofs.Core3E.init_inv P inp cells cap) (Proofs.Core3E.init_inv P inp cells cap)
+    rfl rfl rfl
+
+/-- the declared capacity does not matter either -/
+theorem c05_transparent_cap {P : Prog} (hP : Wf P) (inp : Nat → Inp) (cells : Nat → Nat) (cap cap' : Nat)
+    (ops : List Op) :
+    outputs P (init inp cells cap) ops = outputs P (init inp cells cap') (dropLru ops) :=
+  c05_transparent_inv hP ops _ _ (Proofs.Core3E.init_inv P inp cells cap) (Proofs.Core3E.init_inv P inp cells cap')
+    rfl rfl rfl
+
+/-- line-protocol programs: decidable hypothesis -/
+theorem c05_transparent_prog (es : List (Kind × Expr)) (h : wfList 0 es = true) (inp : Nat → Inp)
+    (cells : Nat → Nat) (cap : Nat) (ops : List Op) :
+    outputs (progOf es) (init inp cells cap) ops = outputs (progOf es) (init inp cells cap) (dropLru ops) :=
+  c05_transparent (wf_progOf es h) inp cells cap ops
+
 /-- **Every evictable cached value is in the LRU set.**  From a fresh database whose `lru`
     function has a non-zero capacity, after any history that never sets the capacity to 0
     (`ops.all capOk`, decidable): every `lru`-kind memo that holds a value and is fully tracked is
@@ -180,5 +259,22 @@ example : (run (progOf exProg) exInp (fun _ => 0) 2 [.get 3, .get 1, .get 2, .se
 example : [Op.get 3, .get 1, .get 2, .set 0 3 none].all capOk = true := by decide
 example : (run (progOf exProg) exInp (fun _ => 0) 2 [.get 3, .get 1, .get 2, .set 0 3 none]).lru.set = [1, 2] := by
   decide
+
+-- hypotheses of `c05_sound` / `c05_transparent` on the same program (all three base queries are
+-- `lru` kinds); a history with a capacity change, an explicit eviction in the middle of a revision
+-- and revision bumps that evict; the answers with and without the LRU operations
+example : wfList 0 exProg = true := by decide
+def exOps : List Op :=
+  [.get 3, .get 1, .get 2, .evict, .get 3, .lruCap 1, .set 0 3 none, .get 3, .get 1, .evict, .get 1, .get 2]
+example : outputs (progOf exProg) (init exInp (fun _ => 0) 2) exOps = [1, 3, 3, 1, 1, 0, 0, 3] := by decide
+example : outputs (progOf exProg) (init exInp (fun _ => 0) 2) (dropLru exOps) = [1, 3, 3, 1, 1, 0, 0, 3] := by
+  decide
+-- the evictions are real: after `evict` with capacity 1 only one value is left
+example : ((run (progOf exProg) exInp (fun _ => 0) 2 [.get 3, .get 1, .get 2, .lruCap 1, .evict]).memos 0).map
+    (·.value) = some none := by decide
+-- and an evicted memo that is verified in the current revision is re-executed by the next request
+-- (the case in which a memo that passes the shallow test is executed again)
+example : (run (progOf exProg) exInp (fun _ => 0) 2 [.get 0, .get 1, .lruCap 1, .evict, .get 0]).trace =
+    [.exec 0, .exec 1, .exec 0] := by decide
 
 end SalsaVerif.Props.C05Engine
